@@ -60,6 +60,16 @@ FIXED = {
    ("C04", "a region count of up to 2^32-1 sized an allocation of up to 32 GiB: out of memory in server and decrypt tool", "process-died region-table: count-2^32-1")],
  "ordinary read streams the data": [
    ("C04", "READ buffered 'limit' bytes in memory: a 2 GiB limit on a large file exhausted an 8 GiB address space", "process-died hostile-session: READ n=2147483647 on /sparse9g.bin")],
+ "do not share one UTF-16 encoder": [
+   ("C12", "package-level UTF-16 encoder shared by concurrently built images (data race, occasionally failed opens)", "data-race fs.mangleStrD1 <-> fs.mangleStrD1 under concurrent opens of one directory"),
+   ("C18", "concurrent opens of the same directory raced on the shared encoder", "C18 race build: 5 distinct race reports in mangleStr*")],
+ "a generated image keeps one member file open": [
+   ("C18", "concurrent opens of a directory with thousands of files exhausted the descriptor limit: transfers cut mid-way ('too many open files')", "network-fetch-failed/concurrent: READ body 768000/1048576 then closed"),
+   ("C13", "every member file ever read stayed open until the image was closed", "handle ledger: open set grows with the number of files read")],
+ "close the just opened file when its Stat fails": [
+   ("C13", "handle leak when Stat fails after Open in FS.OpenFile (handler, dir-size walk) and in HandleOpenDir", "leak plain-file: eio on fstat /big.bin; leak listing-rde: eio on fstat /dir")],
+ "a key file that exists but cannot be opened": [
+   ("C13", "an I/O error opening the adjacent key file made the server serve the still-encrypted bytes", "wrong-answer-under-fault encrypted-adjacent-key: EIO at op #3 (open)")],
 }
 
 OPEN = [
